@@ -21,6 +21,9 @@ Proof. vm_compute. reflexivity. Qed.
 Example cdemo_scope : reader_scopeb cdemo demo_settings cdemo_items = true.
 Proof. vm_compute. reflexivity. Qed.
 
+Example cdemo_paths_plain : literal_paths_plainb cdemo demo_settings = true.
+Proof. vm_compute. reflexivity. Qed.
+
 (** the parse of the emitted tokens is the tree computed from the IR (instance of C02_emit_parses) *)
 Example cdemo_parses : parse_module cdemo_toks = Some (pmod_of_items demo_settings cdemo_items).
 Proof. vm_compute. reflexivity. Qed.
@@ -61,26 +64,24 @@ Example cdemo_corrupted :
   reads 2 (pE ++ [":"; ":"; "Some"; "("; "8u16"; ","; ")"]) = false.
 Proof. vm_compute. repeat split; reflexivity. Qed.
 
-(** the theorem [conforms_tokens] applies to this registry: all its hypotheses hold *)
+(** the theorem [conforms_tokens_full] applies to this registry: all its hypotheses hold *)
 Lemma conforms_tokens_nonvacuous :
   exists (r : registry) (s : settings) (m : items) (toks : tokens) (id : N) (ws : words) (ts : tokens),
     generate r s (types_equal r) = Ok m /\ skeleton_consistent r s /\ reader_scopeb r s m = true /\
+    literal_paths_plainb r s = true /\
     items_plain s m = true /\ emit_module s m = Ok toks /\
-    example_rust r s id ws = XOk ts /\ ~ In empty_str_lit ts /\ In "PhantomData" ts /\
+    example_rust r s id ws = XOk ts /\ In "PhantomData" ts /\
     conformsb r (s_root s) (parse_module toks) (model_paths r s) id ts = true.
 Proof.
   exists cdemo, demo_settings, cdemo_items, cdemo_toks, 1, cwords, (pG ++ ["("] ++ marker ++ [")"]).
   assert (Hsk : skeleton_consistent cdemo demo_settings) by (apply skeleton_consistentb_sound; exact cdemo_consistent).
   assert (Hx : example_rust cdemo demo_settings 1 cwords = XOk (pG ++ ["("] ++ marker ++ [")"])) by apply ex_unit_marker.
-  assert (Hn : ~ In empty_str_lit (pG ++ ["("] ++ marker ++ [")"])).
-  { intros Hi. assert (K : existsb (String.eqb empty_str_lit) (pG ++ ["("] ++ marker ++ [")"]) = true).
-    { apply existsb_exists. eexists. split; [exact Hi|apply String.eqb_refl]. }
-    vm_compute in K. discriminate K. }
   split; [exact cdemo_generates|]. split; [exact Hsk|]. split; [exact cdemo_scope|].
-  split; [exact cdemo_plain|]. split; [exact cdemo_emits|]. split; [exact Hx|]. split; [exact Hn|].
+  split; [exact cdemo_paths_plain|].
+  split; [exact cdemo_plain|]. split; [exact cdemo_emits|]. split; [exact Hx|].
   split; [vm_compute; tauto|].
-  exact (conforms_tokens cdemo demo_settings _ cdemo_items cdemo_toks cdemo_generates Hsk cdemo_scope
-             cdemo_plain cdemo_emits 1 cwords _ Hx Hn).
+  exact (conforms_tokens_full cdemo demo_settings _ cdemo_items cdemo_toks cdemo_generates Hsk cdemo_scope
+           cdemo_paths_plain cdemo_plain cdemo_emits 1 cwords _ Hx).
 Qed.
 
 (** ** the known finding F15 (converse direction on the witness): the model's example of the second
@@ -141,3 +142,50 @@ Example scope_needs_no_ignore_field :
   conforms_irb ignreg demo_settings ign_items 1 ts = true /\
   conformsb ignreg "types" (Some (pmod_of_items demo_settings ign_items)) (model_paths ignreg demo_settings) 1 ts = false.
 Proof. vm_compute. repeat split; reflexivity. Qed.
+
+(** the three witnesses bundled: a clause of the scope ([Cow] in [Cow]; a field called [__ignore]) resp.
+    the token condition fails, the relation holds, and the token-level reader refuses *)
+Lemma reader_scope_clauses_needed :
+  (exists (r : registry) (s : settings) (m : items) (id : N) (ws : words) (ts : tokens),
+     generate r s (types_equal r) = Ok m /\ skeleton_consistentb r s = true /\
+     reader_scopeb r s m = false /\ example_rust r s id ws = XOk ts /\ conforms r s m id ts [] /\
+     conformsb r (s_root s) (Some (pmod_of_items s m)) (model_paths r s) id ts = false /\
+     ts = ["5u8"]) /\
+  (exists (r : registry) (s : settings) (m : items) (id : N) (ws : words) (ts : tokens),
+     generate r s (types_equal r) = Ok m /\ skeleton_consistentb r s = true /\
+     reader_scopeb r s m = false /\ example_rust r s id ws = XOk ts /\ conforms r s m id ts [] /\
+     conformsb r (s_root s) (Some (pmod_of_items s m)) (model_paths r s) id ts = false /\
+     In "__ignore" ts) /\
+  (exists (r : registry) (s : settings) (m : items) (id : N) (ts : tokens),
+     generate r s (types_equal r) = Ok m /\ reader_scopeb r s m = true /\
+     In empty_str_lit ts /\ conforms r s m id ts [] /\
+     conformsb r (s_root s) (Some (pmod_of_items s m)) (model_paths r s) id ts = false).
+Proof.
+  split; [|split].
+  - exists cowcow, demo_settings, [], 2, [5], ["5u8"].
+    split; [vm_compute; reflexivity|]. split; [vm_compute; reflexivity|]. split; [vm_compute; reflexivity|].
+    split; [vm_compute; reflexivity|]. split; [apply conforms_irb_sound; vm_compute; reflexivity|].
+    split; vm_compute; reflexivity.
+  - exists ignreg, demo_settings, ign_items, 1, [5],
+      ["types"; ":"; ":"; "a"; ":"; ":"; "S"; "{"; "__ignore"; ":"; "5u8"; ","; "}"].
+    split; [vm_compute; reflexivity|]. split; [vm_compute; reflexivity|]. split; [vm_compute; reflexivity|].
+    split; [vm_compute; reflexivity|]. split; [apply conforms_irb_sound; vm_compute; reflexivity|].
+    split; [vm_compute; reflexivity|]. vm_compute. tauto.
+  - exists strreg, demo_settings, [], 0, [empty_str_lit; "."; "into"; "("; ")"].
+    split; [vm_compute; reflexivity|]. split; [vm_compute; reflexivity|]. split; [left; reflexivity|].
+    split; [apply conforms_irb_sound; vm_compute; reflexivity|]. vm_compute. reflexivity.
+Qed.
+
+(** F15, converse direction: where [skeleton_consistent] fails the model's example is refused by the
+    token-level reader on the parse of the model's emission *)
+Lemma f15_refused_by_reader :
+  exists (r : registry) (s : settings) (m : items) (toks : tokens) (id : N) (ws : words) (ts : tokens),
+    generate r s (types_equal r) = Ok m /\ skeleton_consistentb r s = false /\
+    reader_scopeb r s m = true /\ emit_module s m = Ok toks /\
+    example_rust r s id ws = XOk ts /\ ~ conforms r s m id ts [] /\
+    conformsb r (s_root s) (parse_module toks) (model_paths r s) id ts = false.
+Proof.
+  exists f15_reg, demo_settings, f15_items, f15_toks, 3, [7], f15_ts.
+  split; [exact f15_generates|]. split; [vm_compute; reflexivity|]. split; [vm_compute; reflexivity|].
+  split; [apply f15_refused|]. split; [apply f15_refused|]. split; [exact f15_not_conforms|apply f15_refused].
+Qed.
